@@ -67,6 +67,8 @@ pub struct Exec {
     pub slots: BTreeMap<u8, Slot>,
     /// physical directories per fs index (for environment faults)
     pub phys_dirs: Vec<Option<std::path::PathBuf>>,
+    /// HWrite issues exactly one write call (C14) instead of write_all semantics
+    pub single_write: bool,
 }
 
 pub fn resolve(root: &VfsPath, s: &str) -> Result<VfsPath, VfsError> {
@@ -131,7 +133,7 @@ fn write_all_counted(h: &mut dyn Write, mut b: &[u8]) -> std::io::Result<u64> {
 impl Exec {
     pub fn new(roots: Vec<VfsPath>) -> Exec {
         let n = roots.len();
-        Exec { roots, slots: BTreeMap::new(), phys_dirs: vec![None; n] }
+        Exec { roots, slots: BTreeMap::new(), phys_dirs: vec![None; n], single_write: false }
     }
 
     fn path(&self, p: &P) -> Result<VfsPath, VfsError> {
@@ -272,6 +274,12 @@ impl Exec {
                 Some(Slot::R(h)) => h.seek(seek_from(*w, *off)).map(Out::Pos).map_err(|e| io_err_info(&e)),
                 Some(Slot::W(h)) => h.seek(seek_from(*w, *off)).map(Out::Pos).map_err(|e| io_err_info(&e)),
                 None => Ok(Out::Unit),
+            },
+            Op::HWrite(slot, pl) if !self.single_write => match self.slots.get_mut(slot) {
+                Some(Slot::W(h)) => {
+                    write_all_counted(&mut **h, &pl.bytes()).map(|n| Out::Num(n as usize)).map_err(|e| io_err_info(&e))
+                }
+                _ => Ok(Out::Unit),
             },
             Op::HWrite(slot, pl) => match self.slots.get_mut(slot) {
                 Some(Slot::W(h)) => {
